@@ -54,9 +54,13 @@ def probes(ctx, cases):
         for at in sorted({0, nsteps // 2, nsteps - 1}):
             with Probe(fail_at=at) as p2:
                 im2 = rescorr.run_impl(c)
-            if "error" not in im2 and len(p2.calls) > at:
+            if len(p2.calls) <= at:
+                continue
+            # either the run is rejected, or the flagged iterate was replaced: the stored level must still be the update
+            if "error" not in im2 and ("field" not in im or np.abs(im2["field"] - im["field"]).max() > 1e-8 * max(1.0, np.abs(im["field"]).max())):
                 ctx.violations.append(dict(what="a linear solve that reported non-convergence (info != 0) was silently accepted into the result",
-                                           key="info-ignored", input=rescorr.replay_payload(c), observed=dict(failed_step=at)))
+                                           key="info-ignored", input=rescorr.replay_payload(c),
+                                           observed=dict(failed_step=at, max_field_change=float(np.abs(im2["field"] - im["field"]).max()) if "field" in im else None)))
                 break
     ctx.cov["solver_probes"] = seen
     if not seen:
